@@ -49,15 +49,23 @@ ACCESSORIES_JSON = {
 
 
 class IpRig:
-    def __init__(self, seed=0, hosts=("127.0.0.1",), port=51826, auto=True, secure_cls=None):
+    def __init__(self, seed=0, hosts=("127.0.0.1",), port=51826, auto=True, secure_cls=None, env=None):
+        """env: environment dimensions every oracle must be indifferent to: dict(delivery=None|'bytes'|'3/4'|'head1' (how a delivery is cut into
+        reads), frames=[sizes] (the accessory's encrypted block sizes), http=<ipacc.HTTP_STYLES member> (legal spelling of its HTTP messages))."""
         self.seed = seed
         self.loop = vloop.VirtualLoop().install()
         self.net = vloop.SimNet(self.loop)
+        env = env or {}
+        self.net.delivery = env.get("delivery")
         self._patch = vloop.patched_network(self.net)
         self._patch.__enter__()
         self._pin = pairdrv.pinned_keys(f"rig|{seed}")
         self._pin.__enter__()
         self.acc = ipacc.Accessory(seed)
+        if env.get("frames"):
+            self.acc.frame_sizes = list(env["frames"])
+        if env.get("http"):
+            self.acc.http_style = env["http"]
         self.sessions = {}
         self.auto_deliver = auto
         self.outbox = []  # (conn, wire) when not auto-delivering
